@@ -81,7 +81,7 @@ MIN_MONITORS = {"*": dict({c: 1 for c in _CONTRACTS},
                           **{"extent": 1, "grid.from_mask": 1, "grid.uniform": 1, "grid.all_false": 1,
                              "scalar.pixel_of_centre": 1, "scalar.scaled_of_pixel": 1, "scalar.centre_roundtrip": 1,
                              "scalar.pixel_of_point": 1, "scalar.centre_of_point": 1,
-                             "points.centres": 1, "points.indexes": 1,
+                             "points.centres": 1, "points.indexes": 1, "points.other_frame": 20,
                              "continuous.scaled_pixels_scaled": 1, "continuous.pixels_scaled_pixels": 1,
                              "ctor.circular": 1, "ctor.circular_annular": 1, "ctor.circular_anti_annular": 1,
                              "ctor.elliptical": 1, "ctor.elliptical_annular": 1, "ctor.origin_independent": 1,
@@ -482,6 +482,41 @@ def geom_case(ctx, idx):
             ctx.check(coords_close(got, pts, s), "continuous.scaled_pixels_scaled", batch=label,
                       offending=lambda: _first_bad(pts, pts, got, np.any(np.abs(got - pts) > BAND * np.array(s), axis=1))
                       if got.shape == pts.shape else list(got.shape), **wit)
+        # whole-number pixel coordinates handed over in an integer-typed grid (what grid_pixel_centres_2d_from returns):
+        # pixels -> scaled -> pixels is still the identity
+        if label == "interior":
+            ok, got = ctx.guarded("continuous.pixels_scaled_pixels", lambda: (lambda P: (str(_np(P).dtype), _np(geo.grid_pixels_2d_from(
+                grid_scaled_2d=geo.grid_scaled_2d_from(grid_pixels_2d=P)).slim)))(geo.grid_pixel_centres_2d_from(grid_scaled_2d=G)))
+            if ok:
+                dt, back = got
+                ctx.classes["pixel_coordinates_dtype:" + dt] += 1
+                bad = care & np.any(np.abs(back - ij) > BAND, axis=1) if back.shape == ij.shape else np.ones(n, bool)
+                ctx.check(back.shape == ij.shape and not bad.any(), "continuous.pixels_scaled_pixels", batch="integer_typed_pixel_coordinates",
+                          dtype=dt, offending=lambda: _first_bad(ij.astype(float), ij, back, bad) if back.shape == ij.shape else list(back.shape), **wit)
+        # the same query coordinates carried by a grid that lives on ANOTHER frame (other shape, pixel scales, origin): the
+        # conversions belong to this geometry, so the answers are those of this frame
+        if label == "interior" and n >= 2:
+            K = int(min(n, 12))
+            sel = rng.choice(n, size=K, replace=False)
+            h2 = 2 if (K % 2 == 0 and K >= 4) else 1
+            shp2 = (h2, K // h2)
+            if shp2 == (H, W):
+                shp2 = (K, 1) if (K, 1) != (H, W) else (1, K)
+            ok, G2 = ctx.guarded("points.build", lambda: aa.Grid2D.no_mask(values=pts[sel].reshape(shp2 + (2,)).copy(), pixel_scales=(0.37, 1.9),
+                                                                           origin=(5.0, -3.0)))
+            if ok:
+                flat = ij[:, 0] * W + ij[:, 1]
+                ok, got = ctx.guarded("points.other_frame", lambda: (_np(geo.grid_pixel_centres_2d_from(grid_scaled_2d=G2).slim),
+                                                                   _np(geo.grid_pixel_indexes_2d_from(grid_scaled_2d=G2).slim),
+                                                                   _np(geo.grid_pixels_2d_from(grid_scaled_2d=G2).slim)))
+                if ok:
+                    gc, gi, gp = got
+                    cs = care[sel]
+                    okc = gc.shape == (K, 2) and not (cs & np.any(gc != ij[sel], axis=1)).any()
+                    oki = gi.shape == (K,) and not (cs & (gi != flat[sel])).any()
+                    okp = gp.shape == (K, 2) and not (cs & np.any(np.floor(gp) != ij[sel], axis=1)).any()
+                    ctx.check(okc and oki and okp, "points.other_frame", carrier_shape=list(shp2), centres_ok=okc, indexes_ok=oki, pixels_ok=okp,
+                              points=pts[sel], expected_indexes=flat[sel], got_indexes=gi, got_centres=gc, **wit)
     ctx.skipped["tie_band_points"] += ndc
     # pixels -> scaled -> pixels on random continuous pixel coordinates spanning the frame
     Q = np.stack([rng.uniform(0.0, H, size=n), rng.uniform(0.0, W, size=n)], axis=-1)
